@@ -96,7 +96,7 @@ pub fn check_parent(run: &mut Run, c: MCell, class: &str) {
 fn run(ctx: &Ctx) -> Run {
     silence_panics();
     let threads = ctx.threads;
-    let exhaustive_to: i32 = if ctx.quick() { 5 } else { 6 };
+    let exhaustive_to: i32 = if ctx.quick() { 5 } else { 7 };
     let mut out = parallel(threads, |w, run| {
         let mut rng = ctx.rng("C12", w);
         for res in 0..=exhaustive_to {
